@@ -18,10 +18,32 @@ fn faults_for(case: &Case, image: &[u8], hlen: usize, chunk: usize, rng: &mut Rn
     let ranges = refmla::chunk_ranges(image.len() - hlen, chunk);
     let mut v = Vec::new();
     let cap = case.param("max_chunks", 24) as usize;
-    let idx: Vec<usize> = if ranges.len() <= cap { (0..ranges.len()).collect() } else { (0..cap / 2).chain(ranges.len() - cap / 2..ranges.len()).collect() };
+    let sparse = case.param("sparse", 0) == 1;
+    let idx: Vec<usize> = if sparse {
+        // long archives: a few chunk indices spread over the stream, four faults each
+        let n = ranges.len();
+        let mut v: Vec<usize> = vec![1, 2, rng.usize_below(n), rng.usize_below(n), rng.usize_below(n), n.saturating_sub(2)];
+        v.retain(|i| *i < n);
+        v.sort();
+        v.dedup();
+        v
+    } else if ranges.len() <= cap {
+        (0..ranges.len()).collect()
+    } else {
+        (0..cap / 2).chain(ranges.len() - cap / 2..ranges.len()).collect()
+    };
     for &i in &idx {
         let r = &ranges[i];
         let base = hlen + r.start;
+        if sparse {
+            if r.payload > 0 {
+                v.push(Fault::Flip { byte: base + rng.usize_below(r.payload), bit: rng.below(8) as u8 });
+                v.push(Fault::Cut { n: base + rng.usize_below(r.payload) });
+            }
+            v.push(Fault::Flip { byte: base + r.payload + rng.usize_below(r.tag.max(1)), bit: rng.below(8) as u8 });
+            v.push(Fault::ChunkDel { i });
+            continue;
+        }
         if r.payload > 0 {
             // payload: first, last and a seeded byte
             for byte in [base, base + r.payload - 1, base + rng.usize_below(r.payload)] {
@@ -63,7 +85,7 @@ impl Prop for C04 {
         "fault_enumeration"
     }
     fn rule(&self) -> String {
-        "run = seeded encrypted archive (E or C+E) with >= 3 encryption chunks; on encrypt-only runs the first file's content is the adversarial block-lookalike class: a well-formed FileStart(\"intruder\")/content/EndOfFile(correct hash)/EndOfArchiveData sequence planted so that it begins exactly at chunk boundaries. Stored-byte faults for EVERY chunk index i (first/last/seeded byte of the payload and of the tag flipped or substituted, truncation inside the payload, at the tag start and inside the tag, chunk duplicated, deleted, swapped with or replaced by a neighbour or an earlier chunk, replaced by the same-index chunk of a second archive with its own key). Each altered image is repaired in authenticated (default) and unauthenticated mode. Oracle: authenticated result has only original names, every file is a prefix of the original, and holds no more than what the chunks verified contiguously from the start carry - computed (a) by the independent format model from the verified plaintext prefix (encrypt-only) and (b) metamorphically by repairing the image cut at the start of the first failing chunk; the authenticated result is a per-file prefix of the unauthenticated one. evaluations = altered images judged; distinct_nontrivial = distinct (variant, layers, fault kind, first failing chunk class, payload/tag, lookalike?, outcome) signatures.".into()
+        "run = seeded encrypted archive (E or C+E) with >= 3 encryption chunks (the first 6 runs - thorough: 60 -: production constants, encryption only, one content block of 6..10 MiB, i.e. 48..80 chunks, faults at six chunk indices spread over the stream); on encrypt-only runs the first file's content is the adversarial block-lookalike class: a well-formed FileStart(\"intruder\")/content/EndOfFile(correct hash)/EndOfArchiveData sequence planted so that it begins exactly at chunk boundaries. Stored-byte faults for EVERY chunk index i (first/last/seeded byte of the payload and of the tag flipped or substituted, truncation inside the payload, at the tag start and inside the tag, chunk duplicated, deleted, swapped with or replaced by a neighbour or an earlier chunk, replaced by the same-index chunk of a second archive with its own key). Each altered image is repaired in authenticated (default) and unauthenticated mode. Oracle: authenticated result has only original names, every file is a prefix of the original, and holds no more than what the chunks verified contiguously from the start carry - computed (a) by the independent format model from the verified plaintext prefix (encrypt-only) and (b) metamorphically by repairing the image cut at the start of the first failing chunk; the authenticated result is a per-file prefix of the unauthenticated one. evaluations = altered images judged; distinct_nontrivial = distinct (variant, layers, fault kind, first failing chunk class, payload/tag, lookalike?, outcome) signatures.".into()
     }
     fn assumptions(&self) -> Vec<String> {
         vec![
@@ -79,6 +101,28 @@ impl Prop for C04 {
     }
     fn make(&self, seed: u64, run: u64, tier: Tier) -> Case {
         let mut rng = Rng::derive(seed, "C04", run, "gen");
+        let long_runs = match tier {
+            Tier::Quick => 6,
+            Tier::Thorough => 60,
+        };
+        if run < long_runs {
+            // production constants, encryption only, ONE content block of 6..10 MiB (48..80 chunks) plus a small file:
+            // the repair then reads with its full 8 MiB buffer across dozens of chunk edges
+            let variant = if tier == Tier::Thorough && run % 3 == 2 { "prod" } else { "prodv" };
+            let vc = consts_of(variant);
+            let mut cfg = gen_cfg(&mut rng, variant, vc.hooks);
+            cfg.layers = L_ENC;
+            cfg.recipients = 1;
+            cfg.reader = 0;
+            let n = rng.range(6 << 20, 10 << 20) as usize;
+            let ops = vec![WOp::Add { name: Name::lit("long"), data: Data::Rand { n, seed: rng.u64() }, src: Src::exact() }, WOp::Add { name: Name::lit("after"), data: Data::Text { n: 3000, seed: 5 }, src: Src::exact() }, WOp::Finalize];
+            let mut case = Case::new("C04", cfg, ops);
+            case.params.insert("fault_seed".into(), (rng.u64() >> 1) as i64);
+            case.params.insert("lookalike".into(), 0);
+            case.params.insert("explicit_auth".into(), i64::from(rng.chance(1, 2)));
+            case.params.insert("sparse".into(), 1);
+            return case;
+        }
         let x = rng.below(100);
         let variant = match tier {
             Tier::Quick => match x {
